@@ -88,6 +88,7 @@ type World struct {
 	TargetPrefix       string          // import-path prefix of the code under test
 	InitStd            map[string]bool // non-target packages whose init is executed (best effort)
 	Stubs              map[string]string // function name -> "noop" (contract stubs declared by the spec)
+	JSONStub           bool              // encoding/json replaced by the contract stub (jsonstub.go)
 	Trace              bool
 
 	extCache sync.Map // *ssa.Function -> externalFn (or nil)
@@ -135,6 +136,9 @@ func (w *World) external(fn *ssa.Function) externalFn {
 		if o := fn.Origin(); o != nil {
 			ext = externals[o.String()]
 		}
+	}
+	if ext == nil && w.JSONStub {
+		ext = jsonStubs[name]
 	}
 	if ext == nil {
 		kind, ok := w.Stubs[name]
